@@ -276,7 +276,21 @@ def r6_1(ctx):
               "constant_to_var/_constant_to_value/_pytd_constant_to_value names "
               "it or an ancestor", facts)
   # arm order: an unconditional ancestor arm must not precede a subclass arm
+  cmod = get_module(ctx, CONVERT)
+  c2v = cmod.func("Converter._constant_to_value")
+  disp = False
+  for head in [s_ for s_ in c2v.body if isinstance(s_, ast.If)]:
+    for test, body in _c05.if_chain(head)[0]:
+      if src(test) == f"isinstance({c2v.args.args[1].arg}, pytd.Node)" and \
+          isinstance(body[-1], ast.Return) and \
+          calls_in(body[-1], name="self._pytd_constant_to_value"):
+        disp = True
+  ctx.check(disp, "dispatch:_constant_to_value->_pytd_constant_to_value", CONVERT,
+            c2v.lineno, "_constant_to_value must hand every pytd.Node to "
+            "_pytd_constant_to_value", {"found": disp})
   for q, lst in arms.items():
+    if not lst:
+      continue
     shadowed = []
     for i, (names, _u, line) in enumerate(lst):
       for n in names:
@@ -294,13 +308,17 @@ def r6_1(ctx):
 # -- R6.2 ------------------------------------------------------------------------
 
 # Value classes named by the arms of output.Converter.value_to_pytd_type /
-# value_to_pytd_def on the reference tree (as spelled in output.py).
+# value_to_pytd_def on the reference tree (as spelled in output.py; the *_TYPES
+# tuples of abstract/abstract.py are listed by their members, so that a tuple
+# losing a member is seen).
 FROZEN_TYPE_ARMS = [
-    "abstract.Empty", "typing_overlay.Never", "abstract.TYPE_VARIABLE_INSTANCES",
+    "abstract.Empty", "typing_overlay.Never", "abstract.TypeParameterInstance",
+    "abstract.ParamSpecInstance",
     "typing_overlay.TypeVar", "typing_overlay.ParamSpec",
     "dataclass_overlay.FieldInstance", "attr_overlay.AttribInstance",
     "special_builtins.PropertyInstance", "typed_dict.TypedDict",
-    "abstract.FUNCTION_TYPES", "abstract.ClassMethod", "abstract.StaticMethod",
+    "abstract.BoundFunction", "abstract.Function", "abstract.ClassMethod",
+    "abstract.StaticMethod",
     "special_builtins.IsInstance", "special_builtins.ClassMethodCallable",
     "abstract.Class", "abstract.Module", "abstract.SimpleValue", "abstract.Union",
     "special_builtins.SuperInstance", "abstract.TypeParameter",
@@ -313,7 +331,7 @@ FROZEN_DEF_ARMS = [
     "abstract.PyTDFunction", "abstract.InterpreterFunction",
     "abstract.SimpleFunction", "abstract.ParameterizedClass", "abstract.Union",
     "abstract.PyTDClass", "typed_dict.TypedDictClass", "abstract.InterpreterClass",
-    "abstract.TYPE_VARIABLE_TYPES", "abstract.Unsolvable",
+    "abstract.TypeParameter", "abstract.ParamSpec", "abstract.Unsolvable",
 ]
 
 
@@ -450,7 +468,7 @@ def _check_frozen(ctx, qual, frozen, label):
                  "ancestors": [c for _, c in anc][:8]})
 
 
-@rule("R6.2", "C06", floor=47)
+@rule("R6.2", "C06", floor=45)
 def r6_2(ctx):
   """Value classes handled today still reach an arm."""
   _check_frozen(ctx, "Converter.value_to_pytd_type", FROZEN_TYPE_ARMS, "type")
@@ -506,7 +524,21 @@ def _relink_flow(fn, extra_gen=None):
       return lambda f: (f.startswith("filled:") or f.startswith("relinked:")) \
           and f.split(":", 1)[1] in names
     return None
-  return flow.flow(fn, gen, kill, mode="must")
+  first = flow.flow(fn, gen, kill, mode="must")
+  # plain aliases (`x = module.ast`) carry the facts of what they alias
+  alias_gen = {}
+  for n in walk_no_nested(fn):
+    if isinstance(n, ast.Assign) and len(n.targets) == 1 and \
+        isinstance(n.targets[0], ast.Name) and dotted(n.value):
+      st = first.before.get(n) or frozenset()
+      for pre in ("filled:", "relinked:"):
+        if pre + dotted(n.value) in st:
+          alias_gen.setdefault(id(n), []).append(pre + n.targets[0].id)
+  if not alias_gen:
+    return first
+  def gen2(unit):
+    return gen(unit) + alias_gen.get(id(unit), [])
+  return flow.flow(fn, gen2, kill, mode="must")
 
 
 def _single_binding_call(fn, name):
@@ -560,14 +592,6 @@ def r6_3(ctx):
             "every path that returns from process_module must have visited "
             f"the returned AST with FillInLocalPointers: {det}",
             {"returns": det, "stored": src(stores[0].value)})
-  # the cached Module object is the one whose .ast is filled
-  rets = [n for k, n, _ in f.exits if k == "return"]
-  cached = dotted(stores[0].value)
-  ctx.check(bool(rets) and all(dotted(r.value) == f"{cached}.ast" for r in rets),
-            "Loader.process_module:cached-object", LOAD, stores[0].lineno,
-            f"process_module caches `{cached}` but returns "
-            f"{[src(r.value) for r in rets]}: the cached AST must be the "
-            "re-linked one", {"cached": cached})
   # Loader.load_module
   lm = lmod.func("Loader.load_module")
   ok, det = _classify_returns(lm, _relink_flow(lm), ("self.process_module",),
@@ -980,6 +1004,14 @@ VARIANTS = [
      "expect": "silent",
      "old": "      module_map = {\"\": module.ast, module_name: module.ast}\n      module.ast.Visit(visitors.FillInLocalPointers(module_map))\n",
      "new": "      module.ast.Visit(\n          visitors.FillInLocalPointers({\"\": module.ast, module_name: module.ast})\n      )\n"},
+    {"name": "twin-process_module-returns-alias", "rule": "R6.3", "file": LOAD,
+     "expect": "silent",
+     "old": "    if module_name:\n      self.add_module_prefixes(module_name)\n    return module.ast",
+     "new": "    result = module.ast\n    if module_name:\n      self.add_module_prefixes(module_name)\n    return result"},
+    {"name": "process_module-returns-input-ast", "rule": "R6.3", "file": LOAD,
+     "expect": "fire",
+     "old": "    if module_name:\n      self.add_module_prefixes(module_name)\n    return module.ast",
+     "new": "    if module_name:\n      self.add_module_prefixes(module_name)\n    return mod_ast"},
     {"name": "twin-pickled-loader-flag-order", "rule": "R6.3", "file": LOAD,
      "expect": "silent",
      "old": "    self._modules[module_name].ast = ast\n    self._modules[module_name].pickle = None\n    self._modules[module_name].has_unresolved_pointers = False",
